@@ -68,8 +68,75 @@ def check(run, replay=None):
                           {"case": case, "runner": "format", "real": res.get("real"), "artefact": res.get("art")}, key=key)
         if len(run.samples) < 3 and run.replayed % 257 == 1:
             run.sample({"cfg": case["cfg"], "i": case["i"], "artefact": (res.get("art") or "")[:400], "verdict": v})
+    # the hybrid parser cannot read the hybrid emitter's output (a listed finding), so what the hybrid form EMITS is additionally
+    # judged through the `__table__ = Table(...)` call it embeds, read by the Table parser
+    _hybrid_embedded(run, cases)
     # Agree: re-run the variants of each interface and compare the real results with each other
     _agree(run, cases)
+
+
+def _embedded_table(case, seed):
+    """-> (source, plain IR) of the hybrid emission's embedded Table, read by the real Table parser"""
+    import ast
+    import copy
+
+    import cdd.sqlalchemy.emit
+    import cdd.sqlalchemy.parse
+    from harness import real
+
+    g = G.Gamma(seed)
+    # the same concretisation as _reparse (the variants of one interface are compared with each other)
+    salt = conv.salt_of({"cfg": {"style": case["cfg"]["style"], "force_pk": case["cfg"]["force_pk"]}, "i": case["i"]}, seed)
+    ir = g.iface(case["i"], salt)
+    name = ir.get("name") or "Config"
+    node = cdd.sqlalchemy.emit.sqlalchemy_hybrid(copy.deepcopy(ir), class_name=name, table_name=name, force_pk_id=case["cfg"]["force_pk"],
+                                                 docstring_format=case["cfg"]["style"], emit_default_doc=True)
+    src, mod = real.render(node)
+    cls = [n for n in mod.body if isinstance(n, ast.ClassDef)][0]
+    tbl = [n for n in cls.body if isinstance(n, ast.Assign) and any(getattr(t, "id", None) == "__table__" for t in n.targets)]
+    if len(tbl) != 1:
+        raise AssertionError("the hybrid emission holds {} `__table__ = ...` assignments".format(len(tbl)))
+    return src, real.plain(cdd.sqlalchemy.parse.sqlalchemy_table(tbl[0].value)), g, salt
+
+
+def _hybrid_one(args):
+    case, seed = args
+    import contextlib
+    import io
+    try:
+        with contextlib.redirect_stdout(io.StringIO()), contextlib.redirect_stderr(io.StringIO()):
+            src, real_ir, g, salt = _embedded_table(case, seed)
+    except Exception as e:  # noqa
+        return {"fails": ["emitting the hybrid form / reading its embedded Table raises {}: {}".format(type(e).__name__, str(e)[:100])], "art": None}
+    fails = [w for _, w in G.compare(real_ir, g.expected(case["exp"], case["i"], salt), True)]
+    n_pk = src.count("primary_key=True")
+    if n_pk != 1:
+        fails.append("the emission has {} primary keys".format(n_pk))
+    return {"fails": fails, "art": src, "params": json.dumps(real_ir["params"], sort_keys=True)}
+
+
+def _hybrid_batch(items):
+    G.NAME_COLS[0] = [0, 2, 3]
+    G.ALLOW_KEYS[0] = {"server_default"}
+    return [_hybrid_one(a) for a in items]
+
+
+def _hybrid_embedded(run, cases):
+    hyb = [c for c in cases if c["cfg"]["fmt"] == "sqlalchemy_hybrid"]
+    items = [(c, run.seed) for c in hyb]
+    n = 0
+    for rb in pmap(_hybrid_batch, [items[k:k + 64] for k in range(0, len(items), 64)], chunksize=1):
+        for res in rb:
+            case = hyb[n]
+            n += 1
+            key = json.dumps(["embedded", case["cfg"], case["i"]], sort_keys=True)
+            if res["fails"]:
+                run.violation("{} {} (embedded Table of the hybrid emission): {}".format(case["cfg"], conv._short(case["i"]), "; ".join(res["fails"][:3])),
+                              {"case": case, "runner": "format", "artefact": res["art"]}, key=key)
+            else:
+                run.held(key)
+            case["_embedded"] = res.get("params")
+    run.extra["hybrid_emissions_read_through_embedded_table"] = n
 
 
 def _reparse(args):
@@ -104,6 +171,9 @@ def _agree(run, cases):
     n_groups = 0
     for k, g in groups.items():
         ok = {v: o for v, (o, c) in g.items() if not c["devs"]}      # variants not covered by a listed deviation
+        for v, (o, c) in g.items():
+            if c.get("_embedded"):
+                ok[v + " (embedded Table)"] = c["_embedded"]
         if len(ok) >= 2:
             n_groups += 1
             if len(set(ok.values())) > 1:
